@@ -1,7 +1,10 @@
 """C13 — structurally non-compliant datasets are read, and reported.
 
 Streams (every case is: an abstract valid dataset F, hand-written with netCDF4 only, and one fault)
-  C13.fault   F x EVERY reference-token site of every referencing attribute x {missing, foreign, removed}
+  C13.fault   F x EVERY reference-token site of every referencing attribute x {missing, foreign, removed,
+              foreign-shared (an existing variable that ANOTHER variable validly names in the same attribute,
+              with dimensions foreign to this parent: reader caches, both creation orders), foreign-data
+              (another DATA variable with foreign dimensions: its own field must still be returned)}
               (exhaustive per file, not sampled).  F comes from four templates: gridded (bounds,
               climatology, auxiliary / scalar / string coordinates, formula terms incl. bounds formula
               terms, simple and extended grid mappings, internal and external cell measures, ancillary
@@ -50,6 +53,9 @@ REQUIRED = [
     "C13_ancillary_tolerant",
     "C13_coded_all_or_nothing",
     "C13_tolerant_partial",
+    "C13_rejected_coordinate_not_referenced",
+    "C13_unreferenced_field_returned",
+    "C13_withheld_fields_are_referenced",
 ]
 BUDGET = {"quick": 5000, "thorough": 200000}
 TIME_LIMIT = {"quick": 170, "thorough": 1400}
@@ -109,7 +115,7 @@ def tmpfile(tag):
 
 
 # ------------------------------------------------------------------ protocol
-SEND = set(G.REF_LIST_ATTRS + G.REF_MAP_ATTRS + G.REF_DIM_ATTRS + G.FREE_TEXT)
+SEND = set(G.REF_LIST_ATTRS + G.REF_MAP_ATTRS + G.REF_DIM_ATTRS + G.FREE_TEXT + ("dimensions",))
 
 
 def q(s):
@@ -161,6 +167,8 @@ def data_vars(F):
             continue
         if "grid_mapping_name" in v["attrs"] or "geometry_type" in v["attrs"]:
             continue
+        if "dimensions" in v["attrs"]:
+            continue                      # a domain variable: no field in field mode
         out.append(n)
     return out
 
@@ -291,6 +299,15 @@ def observe(F, dvs, group=None):
             except Exception as e:
                 rec["array"] = "raised:" + fw.exc_enum(e)
             obs["fields"][dv] = rec
+    dom = [v for v in F["vars"] if isinstance(v["attrs"].get("dimensions"), str)]
+    if dom and obs["status"] == "ok" and group is None:
+        # the domain variables, read as domains
+        obs["domains"] = {}
+        try:
+            for d in cfdm().read(path, domain=True, warnings=False):
+                obs["domains"][base(d.nc_get_variable(None))] = elems_of(d, False)
+        except Exception as e:
+            obs["domains"] = "raised:" + fw.exc_enum(e)
     if obs["closed"]:
         try:
             os.remove(path)
@@ -339,13 +356,15 @@ def broken(p):
         return F
     if p["fault"] == "mal":
         return G.malform(F, p["site"][0], p["site"][1], p["site"][2])
-    return G.break_ref(F, tuple(p["site"]), p["fault"])
+    return G.break_ref(F, tuple(p["site"]), p["fault"], p["dvs"])
 
 
 def applicable(F, site, kind):
     v, attr, i, role = site
     if role == "key":
         return False                       # term / measure names are not references
+    if kind in ("foreign-shared", "foreign-data"):
+        return role == "var" and attr in G.PARENT_ATTRS
     if kind == "foreign":
         if role != "var":
             return False
@@ -575,7 +594,7 @@ def lose_sets(F, p, V):
     B = broken(p)
     Bs = (B["globals"] if v is None else G.get_var(B, v)["attrs"])[attr]
     malformed_now = attr in G.REF_MAP_ATTRS and parse_map(Bs) is None
-    must_report = (fault in ("missing", "foreign") or (fault == "mal" and (attr == "cell_methods" or malformed_now))
+    must_report = (fault in ("missing", "foreign", "foreign-shared", "foreign-data") or (fault == "mal" and (attr == "cell_methods" or malformed_now))
                    or (fault == "removed" and malformed_now))
 
     for dv in dvs:
@@ -649,6 +668,20 @@ def oracle(c):
         for dv in p["dvs"]:
             if obs["fields"].get(dv) is None:
                 return f"field-missing: no field for data variable {dv} of the valid file"
+        F = p["file"]
+        for v in F["vars"]:
+            if isinstance(v["attrs"].get("dimensions"), str) and "domains" in obs:
+                if not isinstance(obs["domains"], dict):
+                    return f"domain-{obs['domains'].replace(':', '-')}: reading the valid file with domain=True raised"
+                got = obs["domains"].get(v["name"])
+                if got is None:
+                    return f"domain-missing: no domain for the domain variable {v['name']}"
+                gc = G.get_var(F, v["attrs"].get("geometry", ""))
+                if gc is not None:
+                    nodes = G.tokens(gc["attrs"].get("node_coordinates", ""))
+                    lost = [n for n in nodes if f"node:{n}" not in got and not any(e.startswith("bnd:") and e.endswith(":" + n) for e in got)]
+                    if lost:
+                        return f"domain-geometry-lost: the domain of {v['name']} has no node coordinates {lost}"
         return None
     F = p["file"]
     dvs = p["dvs"]
@@ -676,6 +709,9 @@ def oracle(c):
                 code = "lost-unaffected" if own else "lost-in-other-field"
                 problems.append(f"{code}: {dv} lost {lost}")
             bad = [e for e in got["elems"] if e.split(":")[-1] in (G.MISSING, G.FOREIGN, G.FOREIGN_C) and p["fault"] != "removed"]
+            if p["fault"] in ("foreign-shared", "foreign-data") and dv == p["site"][0]:
+                r = G.replacement(F, tuple(p["site"]), p["fault"], dvs)
+                bad += [e for e in got["elems"] if e in (f"aux:{r}", f"dim:{r}", f"anc:{r}", f"msr:{r}")]
             if bad:
                 problems.append(f"attached-unmappable: {dv} has {bad}")
         if need_report and not got["report"]:
